@@ -141,6 +141,14 @@ def space_sensor(sid: int, pos, vel, sensor: dict, name=None) -> dict:
             "state": {"type": "eci", "position": [float(x) for x in pos], "velocity": [float(x) for x in vel]}, "sensor": sensor}
 
 
+TIME_ZONES = ["UTC", "UTC", "EST5EDT,M3.2.0,M11.1.0", "IST-5:30", "NZST-12NZDT,M9.5.0,M4.1.0/3", "CET-1CEST,M3.5.0,M10.5.0/3", "HST10"]
+
+
+def draw_tz(rng: random.Random) -> str:
+    """Local time zone of the simulated machine (a POSIX TZ rule)."""
+    return rng.choice(TIME_ZONES)
+
+
 def draw_site(rng: random.Random):
     mode = rng.random()
     if mode < 0.1:
